@@ -445,3 +445,22 @@ func VerifC02_FullAckWindow() { verifClientScenario(true, 2+sym.Tier(), 2, 0, 0)
 //verif:reach stopped delivered handed-back reconnected
 //verif:paths 400000
 func VerifC01_ClientCustodyFullAckWindow() { verifClientScenario(true, 2+sym.Tier(), 2, 0, 0) }
+
+// VerifC02_AcknowledgerEndRace: the client scenario with one preemption placed
+// at any visible operation (atomic, channel, signal, lock) of the acknowledger
+// goroutine: what the acknowledger publishes when it ends (its un-ACKed chunks,
+// its "ended" signal) is consumed by the sender's collectLeftovers, and no
+// interleaving of the two may lose a chunk that was transmitted and awaits its ACK.
+//
+//verif:preempt 1
+//verif:preemptin runAcknowledger
+//verif:timers 30
+//verif:clock virtual
+//verif:native off
+//verif:delays 1
+//verif:thorough delays 2
+//verif:reach stopped delivered handed-back
+//verif:paths 400000
+func VerifC02_AcknowledgerEndRace() {
+	verifClientScenario(true, 2, 1+sym.Tier(), 1, 0)
+}
